@@ -285,14 +285,19 @@ pub(crate) fn build_opts(t: &str) -> Option<(JwtCredentialValidationOptions, Fai
   }
   let mut o = JwtCredentialValidationOptions::default()
     .verification_options(v)
-    .earliest_expiry_date(Timestamp::from_unix(oi(&m, "ee")??).ok()?)
-    .latest_issuance_date(Timestamp::from_unix(oi(&m, "li")??).ok()?)
     .status_check(match m.get("stc")?.as_str() {
       "strict" => StatusCheck::Strict,
       "skipu" => StatusCheck::SkipUnsupported,
       "skipall" => StatusCheck::SkipAll,
       _ => return None,
     });
+  // `N<unix>`: the bound is left unset (the validator then reads the clock, which showed about <unix> when the request was made)
+  if !m.get("ee")?.starts_with('N') {
+    o = o.earliest_expiry_date(Timestamp::from_unix(oi(&m, "ee")??).ok()?);
+  }
+  if !m.get("li")?.starts_with('N') {
+    o = o.latest_issuance_date(Timestamp::from_unix(oi(&m, "li")??).ok()?);
+  }
   if let Some(x) = m.get("sh").filter(|x| x.as_str() != "~") {
     let (h, r) = x.split_once('.')?;
     let rel = match r {
@@ -415,6 +420,7 @@ fn run_inner(args: &[&str]) -> String {
 }
 
 // ---------------------------------------------------------------------------------------------------------
+#[derive(Clone)]
 struct Sc {
   doc: String,
   kid: String,
@@ -584,6 +590,27 @@ pub fn gen(thorough: bool, seed: u64, out: &mut impl Write) {
       s.hn = hn.into();
       s.n = n.into();
       writeln!(out, "{}", s.line("val")).unwrap();
+    }
+  }
+  // (c') bounds left unset: the validator reads the clock.  Dates far from now on either side (1970 / 2100), every
+  // combination of set / unset bounds
+  {
+    let now = std::time::SystemTime::now().duration_since(std::time::UNIX_EPOCH).map(|d| d.as_secs() as i64).unwrap_or(1_800_000_000);
+    let base = Sc::base();
+    for exp in ["1000", "4102444800", "~"] {
+      for nbf in ["100", "4102444800"] {
+        for ee in ["500".to_string(), "4102444801".to_string(), format!("N{}", now)] {
+          for li in ["200".to_string(), "4102444800".to_string(), format!("N{}", now)] {
+            for ff in [0u8, 1] {
+              let mut sc = base.clone();
+              sc.ff = ff;
+              sc.cl = sc.cl.replace("exp=1000", &format!("exp={}", exp)).replace("nbf=100", &format!("nbf={}", nbf));
+              let l = sc.line("val").replace(";ee:500;", &format!(";ee:{};", ee)).replace(";li:200;", &format!(";li:{};", li));
+              writeln!(out, "{}", l).unwrap();
+            }
+          }
+        }
+      }
     }
   }
   // (d) boundary timestamps: issuance vs latest-issuance bound, expiration vs earliest-expiry bound
